@@ -140,6 +140,22 @@ class TimerWorld:
         elif name == 'Crash':
             self.crashed = True
             self.wire = []
+        elif name == 'AnswerBusy':
+            # the peer really is busy: it has a CREATE_CHILD_SA request of its own outstanding (never delivered here) and refuses the IKE_SA rekey
+            if not getattr(self, 'peer_busy', False):
+                w.acquire('B', sport=0, dport=0)
+                self.peer_busy = True
+            data = self.wire[-1]
+            self.wire = []
+            res = w.dispatch('B', data, 'A')
+            b = w.sas('B')[0]
+            import probes
+            m = W.dec_message(bytes(res), probes.keys_of(b.my_crypto)) if res is not None else None
+            if m is None or not any(p['t'] == W.NOTIFY and p['ntype'] == 43 for p in m['inner']):
+                raise common.MachineryError('the busy peer did not answer the IKE_SA rekey with TEMPORARY_FAILURE')
+            out = w.dispatch('A', res, 'B')
+            if out is not None:
+                raise Mismatch('answer', 'a request is sent in reaction to TEMPORARY_FAILURE where the specification waits for the timer')
         elif name == 'Answer':
             data = self.wire[-1]
             self.wire = []
